@@ -81,6 +81,57 @@ def fmt_template(B, op):
     return o
 
 
+def flag_values(ctx, rule):
+    """every DistributionFlags constant the library's behaviour depends on has the protocol's bit value"""
+    import json as _json, os as _os
+    spec_f = _json.load(open(_os.path.join(_os.path.dirname(_os.path.dirname(_os.path.dirname(_os.path.abspath(__file__)))), 'spec', 'dist_flags.json')))['flags']
+    ctx.rule(rule, 'a capability flag that the library itself tests (to pick a framing mode, to accept or refuse a peer) has the bit value the distribution protocol assigns to its name: '
+             'the peer sets and reads that capability by its protocol bit, so a constant on another bit makes this side act on a capability that was not negotiated. '
+             'Constants that are only advertised and never tested are compared too, but a mismatch there changes nothing the properties describe and is reported as a note', floor=1)
+    pre = 'edp_client::flags::DistributionFlags::'
+    used = {}
+    for path in ctx.F.bodies:
+        if 'edp_client::flags::' in path or '::tests::' in path:
+            continue
+        txt = _json.dumps(ctx.F.bodies[path]) if not isinstance(ctx.F.bodies[path], str) else ctx.F.bodies[path]
+        i = 0
+        while True:
+            i = txt.find('DistributionFlags::', i)
+            if i < 0:
+                break
+            j = i + len('DistributionFlags::')
+            k = j
+            while k < len(txt) and (txt[k].isalnum() or txt[k] == '_'):
+                k += 1
+            nm = txt[j:k]
+            if nm and nm.upper() == nm and nm in spec_f:
+                used.setdefault(nm, path)
+            i = k
+    n = 0
+    notes = []
+    for k, v in sorted(ctx.F.consts.items()):
+        if not k.startswith(pre) or 'bits' not in v:
+            continue
+        name = k[len(pre):]
+        if name not in spec_f:
+            continue
+        n += 1
+        got = int(v['bits'])
+        if got == spec_f[name]:
+            if name in used:
+                ctx.ok(rule, name, '%#x, tested in %s' % (got, used[name]))
+            continue
+        what = 'DistributionFlags::%s is %#x; the protocol assigns %#x to DFLAG_%s%s' % (name, got, spec_f[name], name,
+                ' (%#x is DFLAG_%s)' % (got, [a for a, b in spec_f.items() if b == got][0]) if got in spec_f.values() else ' (%#x is not an assigned flag)' % got)
+        if name in used:
+            ctx.bad(rule, name, what + '; tested in %s' % used[name], key='CONST:%s%s' % (pre, name))
+        else:
+            notes.append(what)
+    if notes:
+        ctx.ok(rule, 'advertised-only', 'not tested anywhere in the library, so outside the properties: ' + '; '.join(notes))
+    ctx.anchor(n >= 20, pre + '* constants with protocol names')
+    ctx.anchor(bool(used), 'a flag constant tested by library code')
+
 def run(ctx):
     P = ctx.P
     spec = json.load(open(SPEC))
@@ -419,6 +470,9 @@ def run(ctx):
                 ctx.ok('C04.9-status-acceptance', 'handle_status', 'the false edge of is_ok() only leads to an error return', ctx.where(HB, bb))
             else:
                 ctx.bad('C04.9-status-acceptance', 'handle_status', 'a status for which is_ok() is false can still return successfully from handle_status', ctx.where(HB, bb), key='DOM:handle_status:false-edge-continues')
+
+    # the capability bits themselves: what a name means is fixed by the protocol
+    flag_values(ctx, 'C04.4-flag-values')
 
 
 def check_digest(ctx):
